@@ -312,6 +312,16 @@ func (w *World) CheckVersionsAfter(letter string, before VerSnap, keep bool) {
 				touched[segOf(before.Bases, o)] = true
 			}
 		}
+		// a head segment the Delete created (the tail or the whole head was deleted) is a new segment
+		wasBase := map[int64]bool{}
+		for _, b := range before.Bases {
+			wasBase[b] = true
+		}
+		for i, b := range after.Bases {
+			if !wasBase[b] && b == w.M.Next && after.Vers[i] != w.Cfg.Ver {
+				w.failf("C17", "Delete(%s) created the new head segment %d in version %d, NewSegmentsVersion is %d", arg, b, after.Vers[i], w.Cfg.Ver)
+			}
+		}
 		for _, o := range after.Live {
 			sb := segOf(before.Bases, o)
 			sa := segOf(after.Bases, o)
@@ -358,6 +368,11 @@ func (w *World) CheckVersionsAfter(letter string, before VerSnap, keep bool) {
 func (w *World) backupLetter(arg string) bool {
 	pkg := strings.HasPrefix(arg, "p")
 	same := strings.HasSuffix(arg, "s")
+	// "f…": Log.Backup is the first call on a freshly opened handle, "r…": on a freshly opened
+	// read-only handle; with "x" the index files are removed before that open
+	fresh := strings.HasPrefix(arg, "f") || strings.HasPrefix(arg, "r")
+	freshRO := strings.HasPrefix(arg, "r")
+	rmIdx := strings.Contains(arg, "x")
 	if !same || w.BkDir == "" {
 		w.bkN++
 		w.BkDir = filepath.Join(filepath.Dir(w.Dir), filepath.Base(w.Dir)+".bk"+strconv.Itoa(w.bkN))
@@ -389,14 +404,54 @@ func (w *World) backupLetter(arg string) bool {
 		w.L = nil
 		srcAfterObs = DirDigest(w.Dir, true)
 		err = klevdb.Backup(w.Dir, w.BkDir)
+	} else if fresh {
+		if cerr := w.L.Close(); cerr != nil {
+			w.failf("C01", "Close failed: %v", cerr)
+		}
+		w.L = nil
+		if rmIdx {
+			idx, _ := filepath.Glob(filepath.Join(w.Dir, "*.index"))
+			for _, p := range idx {
+				_ = os.Remove(p)
+			}
+		}
+		o := w.Cfg.Options()
+		o.Readonly = freshRO
+		fl, oerr := klevdb.Open(w.Dir, o)
+		if oerr != nil {
+			w.failf("C01,C11", "Open(readonly=%v) before Backup(%s) failed: %v", freshRO, arg, oerr)
+			if oerr := w.open(w.Cfg.Options()); oerr != nil {
+				return false
+			}
+			return true
+		}
+		srcAfterObs = DirDigest(w.Dir, true)
+		err = fl.Backup(w.BkDir)
+		// (a read-write handle may rebuild removed index files while backing up: derived data)
+		if freshRO || !rmIdx {
+			if d := DirDigest(w.Dir, true); d != srcAfterObs {
+				w.failf("C20", "Backup(%s) through a freshly opened handle (readonly=%v) changed the source directory", arg, freshRO)
+			}
+		}
+		srcAfterObs = ""
+		if cerr := fl.Close(); cerr != nil {
+			w.failf("C01", "Close after Backup(%s) failed: %v", arg, cerr)
+		}
+		if oerr := w.open(w.Cfg.Options()); oerr != nil {
+			w.failf("C01", "Open after Backup(%s) failed: %v", arg, oerr)
+			return false
+		}
 	} else {
 		err = w.L.Backup(w.BkDir)
 	}
 	if err != nil {
 		w.failf("C20", "Backup(%s) failed: %v", arg, err)
 	}
-	if d := DirDigest(w.Dir, true); d != srcAfterObs {
+	if d := DirDigest(w.Dir, true); srcAfterObs != "" && d != srcAfterObs {
 		w.failf("C20", "Backup(%s) changed the source directory", arg)
+	}
+	if fresh {
+		srcAfterObs = DirDigest(w.Dir, true)
 	}
 	if pkg {
 		if oerr := w.open(w.Cfg.Options()); oerr != nil {
@@ -545,11 +600,14 @@ func (w *World) IndexSubsets(all bool) {
 			subsets = append(subsets, allIdx)
 		}
 	}
-	var ref [2]uint64
-	var refTr [2][]string
+	var ref [4]uint64
+	var refTr [4][]string
+	var refFail [4]bool
+	refCheckFail := false
 	clock := vtime.Clock()
 	for si, sub := range subsets {
-		for mode := 0; mode < 2; mode++ {
+		// modes 2 and 3: the same with the integrity check asked for (a missing index file is not damage)
+		for mode := 0; mode < 4; mode++ {
 			cp := w.Dir + ".ix"
 			_ = os.RemoveAll(cp)
 			if err := CopyDir(w.Dir, cp); err != nil {
@@ -559,10 +617,28 @@ func (w *World) IndexSubsets(all bool) {
 				_ = os.Remove(filepath.Join(cp, filepath.Base(idx[i])))
 			}
 			o := w.Cfg.Options()
-			o.Readonly = mode == 1
+			o.Readonly = mode%2 == 1
+			o.Check = mode >= 2
+			if refFail[mode] {
+				_ = os.RemoveAll(cp)
+				continue
+			}
+			if o.Check && !o.Readonly {
+				if err := klevdb.Check(cp, o); err != nil {
+					if si == 0 {
+						refCheckFail = true
+					} else if !refCheckFail {
+						w.failf("C11", "Check with index files %v removed failed: %v", sub, err)
+					}
+				}
+			}
 			l, err := klevdb.Open(cp, o)
 			if err != nil {
-				w.failf("C11", "Open(readonly=%v) with index files %v removed failed: %v", o.Readonly, sub, err)
+				if si == 0 && o.Check {
+					refFail[mode] = true // the complete directory does not pass Check either: nothing to compare with
+				} else {
+					w.failf("C11", "Open(readonly=%v check=%v) with index files %v removed failed: %v", o.Readonly, o.Check, sub, err)
+				}
 				_ = os.RemoveAll(cp)
 				continue
 			}
